@@ -301,3 +301,43 @@ def moment_abs_error(n, rmax):
     in float64 from n vertices with coordinates up to rmax (terms are O(rmax^4);
     calibrated on the unchanged tree: observed <= 0.03 of this)."""
     return EPS * n * float(rmax) ** 4
+
+
+# ------------------------------------------------------------------ volume (defect model)
+DVF = "volume-fix-orientation-reverses-r-only"
+
+
+def _cones(r, z):
+    """Signed volume of the truncated cones spanned by the polyline (r, z), closed."""
+    r = np.asarray(r, dtype=float)
+    z = np.asarray(z, dtype=float)
+    if r[-1] != r[0] or z[-1] != z[0]:
+        r = np.append(r, r[0])
+        z = np.append(z, z[0])
+    R0, R1 = r[:-1], r[1:]
+    return float(np.sum(np.pi / 3 * (z[1:] - z[:-1]) * (R0 * R0 + R0 * R1 + R1 * R1)))
+
+
+def needs_reversal(c, px, py, pix):
+    """The orientation test documented for fix_orientation: mean step of the unwrapped
+    polar angle in the (r, z) = (y, x) plane is negative."""
+    x = np.asarray(c[:, 0], dtype=float) - px / pix
+    y = np.asarray(c[:, 1], dtype=float) - py / pix
+    ang = np.unwrap(np.arctan2(x, y))
+    return bool(np.average(np.diff(ang)) < 0)
+
+
+def volume_model(c, px, py, pix, reverse=False, defect=False):
+    """Mean of the volumes of revolution of the upper and the lower half of the contour.
+    reverse: traverse the contour backwards. defect: reverse only the radial coordinate and
+    keep the axial coordinate in the original order (the DVF defect)."""
+    x = np.asarray(c[:, 0], dtype=float) - px / pix
+    y = np.asarray(c[:, 1], dtype=float) - py / pix
+    r, z = y, x
+    if reverse:
+        r = r[::-1]
+        if not defect:
+            z = z[::-1]
+    right = np.where(r < 0, 0.0, r)
+    left = -np.where(r > 0, 0.0, r)
+    return 0.5 * (_cones(right, z) + _cones(left[::-1], z[::-1])) * pix ** 3
